@@ -231,9 +231,10 @@ func (m *MemSpy) MarkSecret(b []byte) {
 
 // ProcMapping is what the kernel says about the mapping containing an address.
 type ProcMapping struct {
-	Found bool
-	Perms string
-	Flags string
+	Found  bool
+	Perms  string
+	Flags  string
+	Lo, Hi uint64 // extent of the mapping that contains the address
 }
 
 // ProcPerms looks the address up in /proc/self/maps.
@@ -254,7 +255,7 @@ func ProcPerms(addr uintptr) ProcMapping {
 		lo, _ := strconv.ParseUint(line[:dash], 16, 64)
 		hi, _ := strconv.ParseUint(line[dash+1:sp], 16, 64)
 		if uint64(addr) >= lo && uint64(addr) < hi {
-			return ProcMapping{Found: true, Perms: line[sp+1 : sp+5]}
+			return ProcMapping{Found: true, Perms: line[sp+1 : sp+5], Lo: lo, Hi: hi}
 		}
 	}
 	return ProcMapping{}
@@ -285,7 +286,7 @@ func ProcFlags(addr uintptr) ProcMapping {
 					}
 					if uint64(addr) >= lo && uint64(addr) < hi {
 						in = true
-						pm = ProcMapping{Found: true, Perms: line[sp+1 : sp+5]}
+						pm = ProcMapping{Found: true, Perms: line[sp+1 : sp+5], Lo: lo, Hi: hi}
 					}
 					continue
 				}
@@ -297,4 +298,17 @@ func ProcFlags(addr uintptr) ProcMapping {
 		}
 	}
 	return pm
+}
+
+// SizedLike reports whether the mapping can be what is left of a secret of n bytes whose pages start
+// at addr: it begins at most one (guard) page below addr and is no larger than the secret's pages plus
+// two guard pages. Address-space reservations of the Go runtime that happen to cover a released
+// address are far larger.
+func (pm ProcMapping) SizedLike(addr uintptr, n int) bool {
+	const page = 4096
+	if !pm.Found {
+		return false
+	}
+	pages := uint64((n + page - 1) / page * page)
+	return pm.Lo+page >= uint64(addr)&^(page-1) && pm.Hi-pm.Lo <= pages+2*page
 }
